@@ -368,7 +368,9 @@ impl Sim {
     /// Complete dynamic state rendering (hooks H1/H2).
     pub fn digest_string(&self) -> String {
         let mut s = String::with_capacity(1024);
-        let cap = self.k.switch_max_key_timing.max(1);
+        // history ages are read only by key-timing checks; without any such check (max == 0) they are
+        // unobservable and rendered as 0
+        let cap = self.k.switch_max_key_timing;
         self.k.verif_digest(&mut s, cap, u16::MAX);
         s
     }
